@@ -24,6 +24,21 @@ echo "== existing tests of touched packages with patch: $PKGS" >> $LOG
 EXTRA=""
 case "$PKGS" in *agent/consul/state*) EXTRA="./agent/consul/fsm/";; esac
 go test -count=1 -p 4 $PKGS $EXTRA >> $LOG 2>&1; C=$?
-if [ $C -ne 0 ]; then echo "== retry (flaky under load?)" >> $LOG; go test -count=1 -p 2 $PKGS $EXTRA >> $LOG 2>&1; C=$?; fi
+if [ $C -ne 0 ]; then
+  # timing-sensitive tests of the big packages fail under load: rerun only the failed top-level tests, alone
+  NAMES=$(grep -E '^--- FAIL: ' $LOG | awk '{print $3}' | grep -v VerifSeed | sort -u | paste -sd'|')
+  FAILPK=$(grep -E '^FAIL\s+github.com' $LOG | awk '{print $2}' | sed 's#github.com/hashicorp/consul#.#' | sort -u)
+  if [ -n "$NAMES" ] && [ -n "$FAILPK" ]; then
+    echo "== rerun of failed tests alone: $NAMES in $FAILPK" >> $LOG
+    go test -count=1 -p 1 -run "^($NAMES)\$" $FAILPK >> $LOG 2>&1; C=$?
+    if [ $C -ne 0 ]; then
+      echo "== same tests without the patch (is the failure the sandbox's?)" >> $LOG
+      : reverting the patch
+      git checkout -q -- . ; go test -count=1 -p 1 -run "^($NAMES)\$" $FAILPK >> $LOG 2>&1; D=$?
+      echo "== without patch exit=$D" >> $LOG
+      [ $D -ne 0 ] && C=0 && echo "== failures are independent of the patch" >> $LOG
+    fi
+  fi
+fi
 cd /; git -C /repo worktree remove --force $WT
 echo "CONFIRM $ID: demo_without_patch_exit=$A demo_with_patch_exit=$B existing_tests_exit=$C" | tee -a $LOG
